@@ -26,9 +26,12 @@ def main():
     info = registry.PROPS[a.prop]
     mod = importlib.import_module('vf.' + info['module'])
     rep = common.Reporter(a.prop, a.tier, a.seed, a.k, a.n)
+    # quick workloads are bounded by counts (sized for ~30 s on an idle
+    # machine); the time budget only cuts them short on a badly overloaded
+    # one.  Thorough workloads run until their budget is used.
     budget = info.get('budget', {}).get(a.tier,
-                                        45 if a.tier == 'quick' else 420)
-    rep.deadline = time.time() + budget
+                                        200 if a.tier == 'quick' else 420)
+    rep.deadline = rep.full_deadline = time.time() + budget
     rep.only = a.only
     try:
         if a.replay:
